@@ -67,6 +67,9 @@ NOTES = {
  "C08a_2": ("mode_calc_helper: the (truncation 16, max l 6) helper takes the l = 5 table of truncation 14", "C08: eccen_calc_orderl6.py::eccentricity_truncation_16_maxl_6 (first run; native helper-vs-table replayer added)"),
  "C08a_3": ("orderl4 trunc6: sign of the e^4 term of G^2_{4,1,1} flipped (and its alias (3,-1))", "C08: orderl4.py::eccentricity_funcs_trunc6::G2[1,1], G2[3,-1] (first run)"),
 
+ "C20a_1": ("interpreted sqrt_neg, complex branch: Algorithm-312 style rewrite loses the imaginary sign / purely imaginary inputs (real_part selectors use z_r > 0, z_r < 0 only)", "C20: special.py::_sqrt_neg_python::ensures:principal_square_root@path2/4 (first run), array_is_elementwise[complex;element*]"),
+ "C20a_2": ("interpreted sqrt_neg, real branch: whole-array `np.any(real(z) < 0)` decides the 1j factor, so positive elements of a mixed-sign array come out imaginary", "C20: ::ensures:array_is_elementwise[real] (first run missed: only scalars were under contract; engine now has elementwise compare / np.any / np.all / shims on NdArr)"),
+ "C20a_3": ("interpreted (2l+1)!! table built with int64 np.cumprod: overflows from l = 21", "C20: initial/functions.py::l2p1_double_factorials::table[l=21..24] (first run missed: the table was outside the contract; module-level construction now extracted and executed, native replayer imports the table)"),
  "C09a_1": ("orderl3 calc_inclination: cos_i = sqrt(1 - sin_i^2) loses the sign of cos I; wrong only for retrograde obliquities (I > 90 deg) and entries with odd powers of cos I",
             "C09: orderl3.py::calc_inclination::entry(1,1),(1,2),(2,0),(2,1) (first run: tool fault on a non-polynomial entry; now exact refutation at rational points of the circle incl. retrograde ones, replay at I = 2.0 / 2.9 rad)"),
  "C09a_2": ("universal_coeffs: l = 6, m = 6 entry halved (missing (2 - delta_0m))", "C09: universal_coeffs.py::get_universal_coeffs::l6m6 (first run; also C10 grouping_invariance at max l = 7)"),
